@@ -21,7 +21,7 @@
                have to agree on k
      alt[r][k] known-finding alternatives for replica r: outcomes that a listed
                defect of the unchanged tree makes r hold instead of the agreed
-               one, each labelled with the deviation id that has to be in KF
+               one, each labelled with the deviation ids that have to be in KF
 
    Replicas are the volume's copies, also while one is unmounted: an unmounted
    copy cannot be observed (outcome st = "novol"), it is compared again as
@@ -48,12 +48,11 @@ AInit(n, gone) ==
   /\ need = [k \in AllK |-> FALSE]
   /\ alt = [r \in AllR |-> [k \in AllK |-> {}]]
 
-Keep(id, v) == [id |-> id, kind |-> "keep", ob |-> v]
-Kind(id, kind) == [id |-> id, kind |-> kind, ob |-> NoOutcome]
-OneOf(id, ds) == [id |-> id, kind |-> "oneof", ob |-> NoOutcome, ds |-> ds]
+(* an alternative: the deviation ids it relies on, what it admits for the copy (kind, ob, ds) *)
+Alt(ids, kind, ob, ds) == [ids |-> ids, kind |-> kind, ob |-> ob, ds |-> ds]
 Matches(a, v) ==
-  CASE a.kind = "keep" -> v = a.ob
-    [] a.kind = "gone" -> v.st = "gone"
+  CASE a.kind \in {"keep", "keep-unchanged", "keep-noop"} -> v = a.ob
+    [] a.kind \in {"gone", "gone-free"} -> v.st = "gone"
     [] a.kind = "size0" -> IsSize0(v)
     [] a.kind = "oneof" -> v.st = "data" /\ v.d \in a.ds
     [] OTHER -> FALSE
@@ -73,10 +72,10 @@ Matches(a, v) ==
 UploadAlts(r, to, k, c, d, vttl) ==
   LET v == val[r][k] IN
      (IF vttl = "" /\ IsData(v) /\ ~IsSize0(v) /\ v.c = c /\ v.d = d
-        THEN {Keep("C01-unchanged-keeps-metadata", v)} ELSE {})
-  \cup (IF d = "e" THEN {Kind("C01-empty-any-cookie", "size0")} ELSE {})
+        THEN {Alt({"C01-unchanged-keeps-metadata"}, "keep-unchanged", v, {})} ELSE {})
+  \cup (IF d = "e" THEN {Alt({"C01-empty-any-cookie"}, "size0", NoOutcome, {})} ELSE {})
   \cup (IF to \in member \ mounted /\ r \in member
-          THEN {Keep("C40-forwarder-skips-copies", v)} ELSE {})
+          THEN {Alt({"C40-forwarder-skips-copies"}, "keep", v, {})} ELSE {})
 
 AUpload(to, k, c, d, vttl, res) ==
   /\ need' = [need EXCEPT ![k] = (res = "ok")]
@@ -93,7 +92,7 @@ ARace(k, c, d1, d2, res1, res2) ==
   LET ok == res1 = "ok" /\ res2 = "ok" IN
   /\ need' = [need EXCEPT ![k] = ok]
   /\ alt' = [r \in AllR |-> [alt[r] EXCEPT ![k] =
-               IF ok THEN {OneOf("C40-concurrent-overwrites-diverge", {d1, d2})} ELSE {}]]
+               IF ok THEN {Alt({"C40-concurrent-overwrites-diverge"}, "oneof", NoOutcome, {d1, d2})} ELSE {}]]
   /\ UNCHANGED <<member, mounted, val>>
 
 (* ---------------------------------------------------------------- delete *)
@@ -101,7 +100,7 @@ ARace(k, c, d1, d2, res1, res2) ==
    nothing, so a replica holding the empty payload as a size-0 needle keeps it
    while a replica holding it gzip-wrapped deletes it. *)
 DeleteAlts(r, k) ==
-  IF IsSize0(val[r][k]) THEN {Keep("C01-empty-delete-noop", val[r][k])} ELSE {}
+  IF IsSize0(val[r][k]) THEN {Alt({"C01-empty-delete-noop"}, "keep-noop", val[r][k], {})} ELSE {}
 
 ADelete(to, k, c, res) ==
   /\ need' = [need EXCEPT ![k] = (res = "ok")]
@@ -116,9 +115,13 @@ AFault(kind, r, res) ==
   /\ member' = IF kind = "voldelete" /\ res = "ok" THEN member \ {r} ELSE member
   /\ mounted' = IF kind \in {"unmount", "voldelete"} /\ res = "ok" THEN mounted \ {r}
                 ELSE IF kind = "mount" /\ res = "ok" THEN mounted \cup {r} ELSE mounted
+  (* a copy that an alternative lets keep a size-0 needle loses that one on reload as well: both deviations *)
   /\ alt' = IF kind = "mount" /\ res = "ok"
             THEN [alt EXCEPT ![r] = [k \in AllK |->
-                    alt[r][k] \cup (IF IsSize0(val[r][k]) THEN {Kind("C01-empty-lost-on-reload", "gone")} ELSE {})]]
+                    alt[r][k]
+                    \cup (IF IsSize0(val[r][k]) THEN {Alt({"C01-empty-lost-on-reload"}, "gone", NoOutcome, {})} ELSE {})
+                    \cup {Alt(a.ids \cup {"C01-empty-lost-on-reload"}, "gone-free", NoOutcome, {}) :
+                             a \in {x \in alt[r][k] : x.kind \in {"keep", "keep-noop"} /\ IsSize0(x.ob)}}]]
             ELSE alt
   /\ UNCHANGED <<val, need>>
 
@@ -128,12 +131,25 @@ AFault(kind, r, res) ==
    excused by an alternative agree whenever agreement is needed, and S is
    exactly the set of deviation ids the excused replicas rely on. *)
 Readable(obs) == {r \in member : obs[r].st # "novol"}
+(* An alternative excuses one copy for what the defect does to it, never the others: a copy v that is excused
+   through alternative a is still bound to every copy w that is not excused -
+     kept its old needle on an unchanged rewrite: w holds the same cookie and content (only metadata may differ);
+     holds the empty payload as a size-0 needle: w holds the empty payload;
+     kept its size-0 needle through a delete: w is deleted;
+     lost its size-0 needle on reload: w is deleted or holds the empty payload. *)
+Compatible(a, v, w) ==
+  CASE a.kind = "keep-unchanged" -> w.st = "data" /\ w.c = v.c /\ w.d = v.d
+    [] a.kind = "size0" -> w.st = "data" /\ w.d = "e"
+    [] a.kind = "keep-noop" -> w.st = "gone"
+    [] a.kind = "gone" -> w.st = "gone" \/ (w.st = "data" /\ w.d = "e")
+    [] OTHER -> TRUE
 SnapOK(k, obs, S) ==
   \E E \in SUBSET Readable(obs) :
     \E pick \in [E -> UNION {alt[r][k] : r \in AllR}] :
       /\ \A r \in E : pick[r] \in alt[r][k] /\ Matches(pick[r], obs[r])
-      /\ S = {pick[r].id : r \in E}
-      /\ need[k] => \A r1, r2 \in Readable(obs) \ E : obs[r1] = obs[r2]
+      /\ S = UNION {pick[r].ids : r \in E}
+      /\ need[k] => /\ \A r1, r2 \in Readable(obs) \ E : obs[r1] = obs[r2]
+                    /\ \A r \in E : \A w \in Readable(obs) \ E : Compatible(pick[r], obs[r], obs[w])
 ASnap(k, obs) ==
   /\ val' = [r \in AllR |-> IF r \in Readable(obs) THEN [val[r] EXCEPT ![k] = obs[r]] ELSE val[r]]
   /\ UNCHANGED <<member, mounted, need, alt>>
